@@ -35,6 +35,10 @@ CHECKS.update({
  "C16": ("vconc", "model_checking", "stateless exploration of all schedules of closed 2-3 thread harnesses up to a preemption bound (iterative context bounding) under shuttle with a custom DFS scheduler, lock operations of the real code hooked",
          "All schedules with at most 2 (quick) / 3..unbounded (thorough) preemptions of 15 scenarios on the real savefile-abi caches: no deadlock, livelock, panic or lock leak, results equal to every sequential order, caches consistent afterwards.", "§5 C16"),
 })
+CHECKS.update({
+ "C09": ("vabi09", "model_checking", "exhaustive enumeration of a generated interface family (argument kinds x return kinds x values x buffer-straddling sizes x panic payloads x future schedules); direct-call log compared with ABI-call log",
+         "Every method of the generated family is driven directly and through an AbiConnection for every enumerated state; observed arguments, callbacks, returned values, drop traces (exactly once), panic propagation and connection reuse must agree.", "§5 C09"),
+})
 TODO = {}
 props = [json.loads(l)["id"] for l in open("/verif/properties.jsonl")]
 checks = []
@@ -66,6 +70,7 @@ m = {
  },
  "engines": [
    {"name": "vseq", "path": "engine/seq", "serves_properties": [p for p in props if p in CHECKS and CHECKS[p][0]=="vseq"], "kind_free_text": "sequential explicit-state / fault enumeration on the real code against the reference model; child-process isolation with crash attribution"},
+   {"name": "vabi09", "path": "engine/abi_call", "serves_properties": ["C09"], "kind_free_text": "generated interface family, direct vs ABI call log comparison, child-process workers"},
    {"name": "vschema", "path": "engine/schema13", "serves_properties": ["C13"], "kind_free_text": "schema tree enumeration against the independent schema codec"},
    {"name": "vabi15", "path": "engine/abi_ledger", "serves_properties": ["C15"], "kind_free_text": "BFS over ledger run sequences"},
    {"name": "vconc", "path": "engine/conc", "serves_properties": ["C16"], "kind_free_text": "shuttle-based preemption-bounded schedule enumeration of the real savefile-abi lock operations"},
